@@ -1,0 +1,14 @@
+//go:build verif
+// +build verif
+
+package x509
+
+// Test-only exports for the external verification harness (build tag "verif").
+// Thin wrappers around unexported decoders; no behaviour of the package changes.
+
+// VerifBer2Der exposes the BER to DER transcoder used by ParsePKCS7.
+func VerifBer2Der(ber []byte) ([]byte, error) { return ber2der(ber) }
+
+// VerifPad / VerifUnpad expose the PKCS#7 block padding helpers of pkcs7.go.
+func VerifPad(data []byte, blocklen int) ([]byte, error)   { return pad(data, blocklen) }
+func VerifUnpad(data []byte, blocklen int) ([]byte, error) { return unpad(data, blocklen) }
